@@ -37,6 +37,8 @@ enum Mutn {
     Garbage(usize, Vec<u8>),
     Zero(usize, usize),
     ZeroExtend(usize),
+    /// the file extended by n bytes of 0xFF (erased flash, a filler pattern)
+    OnesExtend(usize),
     DupHeader(usize),
     Foreign(Vec<u8>),
 }
@@ -49,6 +51,7 @@ impl Mutn {
             Mutn::Garbage(..) => "garbage",
             Mutn::Zero(..) => "zero-fill",
             Mutn::ZeroExtend(_) => "zero-extend",
+            Mutn::OnesExtend(_) => "ones-extend",
             Mutn::DupHeader(_) => "dup-header",
             Mutn::Foreign(_) => "foreign-header",
         }
@@ -61,6 +64,7 @@ impl Mutn {
             Mutn::Garbage(p, g) => (0..g.len()).filter(|i| p + i < img.len()).for_each(|i| m[p + i] = g[i]),
             Mutn::Zero(p, n) => (*p..(*p + *n).min(img.len())).for_each(|i| m[i] = 0),
             Mutn::ZeroExtend(n) => m.resize(img.len() + n, 0),
+            Mutn::OnesExtend(n) => m.resize(img.len() + n, 0xff),
             Mutn::DupHeader(h) => {
                 let hd = img[..(*h).min(img.len())].to_vec();
                 m.splice(hd.len()..hd.len(), hd.clone());
@@ -76,6 +80,7 @@ impl Mutn {
             Mutn::Garbage(p, g) => json!({"k": "garbage", "pos": p, "bytes": hex(g)}),
             Mutn::Zero(p, n) => json!({"k": "zero-fill", "pos": p, "n": n}),
             Mutn::ZeroExtend(n) => json!({"k": "zero-extend", "n": n}),
+            Mutn::OnesExtend(n) => json!({"k": "ones-extend", "n": n}),
             Mutn::DupHeader(h) => json!({"k": "dup-header", "n": h}),
             Mutn::Foreign(h) => json!({"k": "foreign-header", "bytes": hex(h)}),
         }
@@ -88,6 +93,7 @@ impl Mutn {
             "garbage" => Mutn::Garbage(u("pos"), unhex(v["bytes"].as_str().unwrap_or(""))),
             "zero-fill" => Mutn::Zero(u("pos"), u("n")),
             "zero-extend" => Mutn::ZeroExtend(u("n")),
+            "ones-extend" => Mutn::OnesExtend(u("n")),
             "dup-header" => Mutn::DupHeader(u("n")),
             _ => Mutn::Foreign(unhex(v["bytes"].as_str().unwrap_or(""))),
         }
@@ -183,6 +189,11 @@ fn mutants(img: &[u8], reg: &Regions, exhaustive: bool, rng: &mut Rng, extra: bo
         out.push(Mutn::Garbage(p, g));
         out.push(Mutn::Zero(rng.gen_range(0..img.len()), [1, 4, 16, 64, 1 << 20][rng.gen_range(0..5)]));
     }
+    // CRC-32 has a fixed point: the 4-byte payload ff ff ff ff checks against the checksum ff ff ff ff. An all-ones
+    // fill over an entry whose (intact) length field says 4 therefore "validates" by construction. No entry the server
+    // writes is 4 bytes long (an entry is a serialized delta), so the all-ones mutants are left out of images that
+    // hold a 4-byte payload instead of reporting that coincidence.
+    let ones = !reg.0.iter().any(|r| r.2.ends_with("payload") && r.1 - r.0 == 4);
     // every field overwritten by garbage / zeros exactly, and zero-fill from every field boundary to the end
     for r in reg.0.iter().filter(|r| r.1 <= img.len() && r.1 > r.0) {
         if r.1 - r.0 <= 64 {
@@ -190,12 +201,21 @@ fn mutants(img: &[u8], reg: &Regions, exhaustive: bool, rng: &mut Rng, extra: bo
             g[0] = img[r.0] ^ (1 + rng.gen_range(0..255u8));
             out.push(Mutn::Garbage(r.0, g));
             out.push(Mutn::Zero(r.0, r.1 - r.0));
+            // the field set to all ones (the largest value a length / count / offset can take)
+            if ones {
+                out.push(Mutn::Garbage(r.0, vec![0xff; r.1 - r.0]));
+            }
         }
         out.push(Mutn::Zero(r.0, 1 << 20));
+        // 0xFF-fill from the field boundary to the end of the image
+        if ones {
+            out.push(Mutn::Garbage(r.0, vec![0xff; (img.len() - r.0).min(4096)]));
+        }
     }
     if extra {
         // zero-filled extension of the file (allocated but never written blocks), duplicated header
         [1usize, 15, 16, 17, 48, 333].iter().for_each(|&n| out.push(Mutn::ZeroExtend(n)));
+        [4usize, 16, 17, 64, 333].iter().for_each(|&n| out.push(Mutn::OnesExtend(n)));
         out.push(Mutn::DupHeader(16));
     }
     out
